@@ -1,47 +1,621 @@
-// Replay of counterexamples against the real code (go test -overlay), selftest corpus.
+// Replay of counterexamples against the real code.
+//
+// For a failed obligation with a model, the model's inputs are fed to the REAL function through an
+// in-package test injected with `go test -overlay` (nothing is written to /repo). The run either
+// panics (a violation for every function under a safety claim) or returns outputs; the exported
+// postconditions of the function are then evaluated on (model inputs, real outputs) by the SMT
+// solver. Only a replay that reproduces a violation counts as a failing input.
 package main
 
 import (
+	"encoding/json"
 	"fmt"
+	"go/types"
+	"math/big"
+	"os"
+	"os/exec"
 	"path/filepath"
+	"sort"
+	"strings"
 )
 
-// replayOblig writes the replay file for a failed obligation and, when a model and a replay
-// template exist, runs the model against the real code. Returns (path, confirmed).
+type replayInput struct {
+	expr string // Go l-value expression (also a contract expression)
+	term string
+	typ  types.Type
+}
+
+type replayInfo struct {
+	entryCtx  int
+	ensures   []string
+	extraDefs []string
+	resConsts []string
+	resTypes  []types.Type
+	inputs    []replayInput
+	heapDep   bool
+	why       string
+}
+
+func (g *Gen) prepareReplay() {
+	fn, c := g.top, g.topC
+	if fn == nil || c == nil {
+		return
+	}
+	ri := &replayInfo{}
+	g.replay = ri
+	nd := len(g.defs)
+	defer func() {
+		if r := recover(); r != nil {
+			if te, ok := r.(transErr); ok {
+				ri.why = "replay preparation failed: " + te.msg
+				g.defs = g.defs[:nd]
+				return
+			}
+			panic(r)
+		}
+	}()
+	for _, l := range c.Replay {
+		if strings.HasPrefix(l, "input ") {
+			ex := strings.TrimSpace(strings.TrimPrefix(l, "input "))
+			e, err := ParseExpr(ex)
+			if err != nil {
+				ri.why = "bad replay input: " + err.Error()
+				continue
+			}
+			env := g.contractEnv()
+			env.oldEntry = true
+			v := g.trans(e, env)
+			ri.inputs = append(ri.inputs, replayInput{expr: ex, term: v.t, typ: v.gt})
+		}
+	}
+	ri.entryCtx = len(g.defs)
+	ri.heapDep = len(c.Assigns) > 0 || c.AssignsAll
+	// result constants and exported ensures over them (heap = entry heap)
+	rs := fn.Signature.Results()
+	for i := 0; i < rs.Len(); i++ {
+		t := rs.At(i).Type()
+		rc := g.fresh(fmt.Sprintf("replay_r%d", i), g.sortOf(t))
+		ri.resConsts = append(ri.resConsts, rc)
+		ri.resTypes = append(ri.resTypes, t)
+	}
+	env := g.contractEnv()
+	env.oldEntry = true
+	g.bindResults(env, fn.Signature, func(i int) string { return ri.resConsts[i] })
+	for _, e := range c.Ensures {
+		ri.ensures = append(ri.ensures, g.transBool(e.E, env))
+	}
+	ri.extraDefs = append([]string{}, g.defs[ri.entryCtx:]...)
+	g.defs = g.defs[:ri.entryCtx]
+}
+
+// parse an SMT value into a big integer (interpreting bit-vectors as unsigned)
+func smtInt(v string) (*big.Int, int, bool) {
+	v = strings.TrimSpace(v)
+	switch {
+	case strings.HasPrefix(v, "#x"):
+		n, ok := new(big.Int).SetString(v[2:], 16)
+		return n, 4 * (len(v) - 2), ok
+	case strings.HasPrefix(v, "#b"):
+		n, ok := new(big.Int).SetString(v[2:], 2)
+		return n, len(v) - 2, ok
+	case strings.HasPrefix(v, "(_ bv"):
+		f := strings.Fields(strings.Trim(v, "()"))
+		if len(f) == 3 {
+			n, ok := new(big.Int).SetString(strings.TrimPrefix(f[1], "bv"), 10)
+			var w int
+			fmt.Sscanf(f[2], "%d", &w)
+			return n, w, ok
+		}
+	case strings.HasPrefix(v, "(-"):
+		inner := strings.TrimSpace(strings.TrimSuffix(strings.TrimPrefix(v, "(-"), ")"))
+		n, _, ok := smtInt(inner)
+		if ok {
+			return new(big.Int).Neg(n), 0, true
+		}
+	default:
+		n, ok := new(big.Int).SetString(v, 10)
+		return n, 0, ok
+	}
+	return nil, 0, false
+}
+
+// Go literal of integer type t for SMT value v
+func goIntLit(v string, t types.Type, qual types.Qualifier) (string, bool) {
+	n, w, ok := smtInt(v)
+	if !ok {
+		return "", false
+	}
+	if w > 0 && isSigned(t) && n.Bit(w-1) == 1 {
+		n = new(big.Int).Sub(n, new(big.Int).Lsh(big.NewInt(1), uint(w)))
+	}
+	ts := types.TypeString(t, qual)
+	if n.Sign() < 0 {
+		return fmt.Sprintf("%s(%s)", ts, n.String()), true
+	}
+	return fmt.Sprintf("%s(%s)", ts, n.String()), true
+}
+
+type replayResult struct {
+	Confirmed bool
+	Output    string
+	Model     map[string]string
+	TestSrc   string
+	Reason    string
+}
+
+func safetyKind(k string) bool {
+	switch k {
+	case "index", "slice", "nil", "divzero", "panic-unreachable", "makeslice", "typeassert", "nilmap", "shift":
+		return true
+	}
+	return false
+}
+
 func replayOblig(w *World, id string, o *Oblig, dir string, timeout int) (string, bool) {
 	rp := filepath.Join(dir, fileSafe(o.Name)+".json")
 	rec := map[string]interface{}{"property": id, "obligation": o.Name, "clause": o.Desc, "status": o.Status, "solver": o.Solver,
 		"smt_file": o.File, "solver_output": trunc(o.Output, 4000)}
 	confirmed := false
-	if o.Status == "sat" && o.gen != nil {
-		terms := o.gen.inputTerms()
-		mv := modelValues(o, o.Solver, terms, timeout)
-		model := map[string]string{}
-		for n, t := range o.gen.inputs {
-			if v, ok := mv[t]; ok {
-				model[n] = v
+	if o.Status == "sat" && o.gen != nil && o.gen.top != nil {
+		rr := runReplay(w, o, dir, timeout)
+		rec["model"] = rr.Model
+		rec["replay_output"] = trunc(rr.Output, 4000)
+		rec["replay_confirmed"] = rr.Confirmed
+		rec["replay_note"] = rr.Reason
+		if rr.TestSrc != "" {
+			tf := filepath.Join(dir, fileSafe(o.Name)+"_replay_test.go.txt")
+			os.WriteFile(tf, []byte(rr.TestSrc), 0644)
+			rec["replay_test"] = tf
+		}
+		confirmed = rr.Confirmed
+		if !confirmed && o.Kind != "ensures" && !safetyKind(o.Kind) {
+			// The failed obligation is an internal proof step (assertion / loop invariant); its model need
+			// not violate anything observable. Search for an input that violates an EXPORTED postcondition
+			// of the same function, without assuming the failed step, and replay that one.
+			for _, e := range o.gen.obs {
+				if e.Kind != "ensures" || confirmed {
+					continue
+				}
+				e2 := *e
+				e2.NoAssumed = true
+				e2.Opaque = nil
+				e2.Status = ""
+				e2.Name = e.Name + "-search"
+				solveAll([]*Oblig{&e2}, dir, timeout, 1)
+				if e2.Status != "sat" {
+					continue
+				}
+				rr2 := runReplay(w, &e2, dir, timeout)
+				if rr2.Confirmed {
+					confirmed = true
+					rec["replay_via"] = e.Name
+					rec["model"] = rr2.Model
+					rec["replay_output"] = trunc(rr2.Output, 4000)
+					rec["replay_confirmed"] = true
+					rec["replay_note"] = "internal proof step failed; an input violating the exported postcondition " + e.Name + " was found and reproduced: " + rr2.Reason
+					if rr2.TestSrc != "" {
+						tf := filepath.Join(dir, fileSafe(o.Name)+"_replay_test.go.txt")
+						os.WriteFile(tf, []byte(rr2.TestSrc), 0644)
+						rec["replay_test"] = tf
+					}
+				}
 			}
 		}
-		rec["model"] = model
-		ok, out := runReplay(w, o, model, dir)
-		rec["replay_output"] = trunc(out, 4000)
-		rec["replay_confirmed"] = ok
-		confirmed = ok
+	} else if o.Status != "sat" {
+		rec["replay_note"] = "the solver gave no model (" + o.Status + "): no failing input"
 	}
 	writeJSON(rp, rec)
 	return rp, confirmed
 }
 
-func runReplay(w *World, o *Oblig, model map[string]string, dir string) (bool, string) {
-	return false, "no replay template for this function"
+func runReplay(w *World, o *Oblig, dir string, timeout int) (rr replayResult) {
+	g := o.gen
+	fn := g.top
+	ri := g.replay
+	if ri == nil {
+		rr.Reason = "no replay information"
+		return
+	}
+	if fn.Signature.Recv() != nil && !hasReplayRecv(g.topC) {
+		rr.Reason = "method replay needs a `replay recv` constructor in the contract"
+		return
+	}
+	pkg := fn.Pkg.Pkg
+	qual := func(p *types.Package) string {
+		if p == pkg {
+			return ""
+		}
+		return p.Name()
+	}
+	// terms to evaluate
+	type argInfo struct {
+		name  string
+		typ   types.Type
+		terms []string // scalar: 1 term; []byte/string/array: len + elements
+		kind  string
+	}
+	const maxBytes = 96
+	var args []argInfo
+	var terms []string
+	params := fn.Params
+	for _, p := range params {
+		t := p.Type()
+		pt := g.topParams[p.Name()].t
+		ai := argInfo{name: p.Name(), typ: t}
+		switch u := t.Underlying().(type) {
+		case *types.Basic:
+			if isInteger(t) || isBool(t) {
+				ai.kind = "scalar"
+				ai.terms = []string{pt}
+			} else if isString(t) {
+				ai.kind = "bytes"
+				ai.terms = append(ai.terms, "(len "+pt+")")
+				c, _ := g.memComp(types.Typ[types.Uint8])
+				for i := 0; i < maxBytes; i++ {
+					ai.terms = append(ai.terms, fmt.Sprintf("(select (select %s (base %s)) %s)", g.entry[c], pt, g.addIdx("(off "+pt+")", g.idx(int64(i)))))
+				}
+			}
+		case *types.Slice:
+			if b, ok := u.Elem().Underlying().(*types.Basic); ok && b.Kind() == types.Uint8 {
+				ai.kind = "bytes"
+				ai.terms = append(ai.terms, "(len "+pt+")")
+				c, _ := g.memComp(types.Typ[types.Uint8])
+				for i := 0; i < maxBytes; i++ {
+					ai.terms = append(ai.terms, fmt.Sprintf("(select (select %s (base %s)) %s)", g.entry[c], pt, g.addIdx("(off "+pt+")", g.idx(int64(i)))))
+				}
+			}
+		case *types.Array:
+			if b, ok := u.Elem().Underlying().(*types.Basic); ok && b.Kind() == types.Uint8 && u.Len() <= 64 {
+				ai.kind = "array"
+				for i := int64(0); i < u.Len(); i++ {
+					ai.terms = append(ai.terms, fmt.Sprintf("(select %s %s)", pt, g.idx(i)))
+				}
+			}
+		}
+		if fn.Signature.Recv() != nil && p == params[0] {
+			ai.kind = "recv"
+		}
+		if ai.kind == "" {
+			rr.Reason = fmt.Sprintf("parameter %s of type %s cannot be rebuilt from a model", p.Name(), t)
+			return
+		}
+		args = append(args, ai)
+		terms = append(terms, ai.terms...)
+	}
+	for _, in := range ri.inputs {
+		terms = append(terms, in.term)
+	}
+	// extra terms requested by a `replay recv` constructor
+	recvTerms := map[string]string{}
+	if g.topC != nil {
+		for _, l := range g.topC.Replay {
+			if strings.HasPrefix(l, "term ") {
+				// term name = contract expression
+				rest := strings.TrimPrefix(l, "term ")
+				if i := strings.Index(rest, "="); i > 0 {
+					name := strings.TrimSpace(rest[:i])
+					if e, err := ParseExpr(rest[i+1:]); err == nil {
+						func() {
+							defer func() { recover() }()
+							env := &TEnv{g: g, vars: g.topParams, pkg: g.topC.Pkg, oldEntry: true, inOld: true}
+							nd := len(g.defs)
+							v := g.trans(e, env)
+							g.defs = g.defs[:nd]
+							recvTerms[name] = v.t
+							terms = append(terms, v.t)
+						}()
+					}
+				}
+			}
+		}
+	}
+	if len(terms) == 0 {
+		terms = []string{"true"}
+	}
+	mv := modelValues(o, o.Solver, terms, timeout)
+	if mv == nil {
+		rr.Reason = "could not obtain model values from " + o.Solver
+		return
+	}
+	rr.Model = map[string]string{}
+	// Go argument expressions
+	var goArgs []string
+	var pins []string
+	recvExpr := ""
+	for _, a := range args {
+		switch a.kind {
+		case "scalar":
+			v := mv[a.terms[0]]
+			rr.Model[a.name] = v
+			pins = append(pins, fmt.Sprintf("(assert (= %s %s))", a.terms[0], v))
+			if isBool(a.typ) {
+				goArgs = append(goArgs, v)
+			} else {
+				lit, ok := goIntLit(v, a.typ, qual)
+				if !ok {
+					rr.Reason = "cannot convert model value " + v
+					return
+				}
+				goArgs = append(goArgs, lit)
+			}
+		case "bytes":
+			ln, _, ok := smtInt(mv[a.terms[0]])
+			if !ok || ln.Sign() < 0 || ln.Cmp(big.NewInt(maxBytes)) > 0 {
+				rr.Reason = fmt.Sprintf("model length of %s (%s) is outside the replayable range", a.name, mv[a.terms[0]])
+				rr.Model[a.name+".len"] = mv[a.terms[0]]
+				return
+			}
+			pins = append(pins, fmt.Sprintf("(assert (= %s %s))", a.terms[0], mv[a.terms[0]]))
+			var bs []string
+			for i := 0; i < int(ln.Int64()); i++ {
+				b, _, _ := smtInt(mv[a.terms[1+i]])
+				if b == nil {
+					b = big.NewInt(0)
+				}
+				bs = append(bs, b.String())
+				pins = append(pins, fmt.Sprintf("(assert (= %s %s))", a.terms[1+i], mv[a.terms[1+i]]))
+			}
+			rr.Model[a.name] = "[" + strings.Join(bs, " ") + "]"
+			lit := "[]byte{" + strings.Join(bs, ", ") + "}"
+			if isString(a.typ) {
+				lit = "string(" + lit + ")"
+			} else if _, named := a.typ.(*types.Named); named {
+				lit = types.TypeString(a.typ, qual) + "(" + lit + ")"
+			}
+			goArgs = append(goArgs, lit)
+		case "array":
+			var bs []string
+			for i := range a.terms {
+				b, _, _ := smtInt(mv[a.terms[i]])
+				if b == nil {
+					b = big.NewInt(0)
+				}
+				bs = append(bs, b.String())
+				pins = append(pins, fmt.Sprintf("(assert (= %s %s))", a.terms[i], mv[a.terms[i]]))
+			}
+			rr.Model[a.name] = "[" + strings.Join(bs, " ") + "]"
+			goArgs = append(goArgs, types.TypeString(a.typ, qual)+"{"+strings.Join(bs, ", ")+"}")
+		case "recv":
+			recvExpr = "recv"
+		}
+	}
+	var setup []string
+	for _, in := range ri.inputs {
+		v := mv[in.term]
+		rr.Model[in.expr] = v
+		pins = append(pins, fmt.Sprintf("(assert (= %s %s))", in.term, v))
+		if in.typ != nil && isBool(in.typ) {
+			setup = append(setup, fmt.Sprintf("%s = %s", in.expr, v))
+		} else if in.typ != nil && isInteger(in.typ) {
+			lit, ok := goIntLit(v, in.typ, qual)
+			if !ok {
+				rr.Reason = "cannot convert model value " + v
+				return
+			}
+			setup = append(setup, fmt.Sprintf("%s = %s", in.expr, lit))
+		}
+	}
+	// receiver constructor: `replay recv <Go expr>` with $name placeholders for `replay term` values
+	if recvExpr != "" {
+		for _, l := range g.topC.Replay {
+			if strings.HasPrefix(l, "recv ") {
+				ex := strings.TrimPrefix(l, "recv ")
+				for name, t := range recvTerms {
+					n, _, ok := smtInt(mv[t])
+					val := mv[t]
+					if ok {
+						val = n.String()
+					}
+					ex = strings.ReplaceAll(ex, "$"+name, val)
+					rr.Model[name] = mv[t]
+					pins = append(pins, fmt.Sprintf("(assert (= %s %s))", t, mv[t]))
+				}
+				setup = append(setup, "recv := "+ex)
+			}
+		}
+	}
+	// imports used by setup expressions
+	imports := map[string]string{}
+	if p := w.ByPath[pkg.Path()]; p != nil {
+		for path, ip := range p.Imports {
+			for _, s := range append(setup, goArgs...) {
+				if strings.Contains(s, ip.Name+".") {
+					imports[ip.Name] = path
+				}
+			}
+		}
+	}
+	var sb strings.Builder
+	fmt.Fprintf(&sb, "package %s\n\nimport (\n\t\"encoding/json\"\n\t\"fmt\"\n\t\"testing\"\n", pkg.Name())
+	var inames []string
+	for n := range imports {
+		inames = append(inames, n)
+	}
+	sort.Strings(inames)
+	for _, n := range inames {
+		if n != "json" && n != "fmt" && n != "testing" {
+			fmt.Fprintf(&sb, "\t%s %q\n", n, imports[n])
+		}
+	}
+	sb.WriteString(")\n\n")
+	fmt.Fprintf(&sb, "// replay of obligation %s\nfunc TestZZVerifReplay(t *testing.T) {\n\tout := map[string]interface{}{}\n", o.Name)
+	sb.WriteString("\tdefer func() {\n\t\tif r := recover(); r != nil {\n\t\t\tout[\"panic\"] = fmt.Sprint(r)\n\t\t}\n\t\tb, _ := json.Marshal(out)\n\t\tfmt.Println(\"VERIFREPLAY:\" + string(b))\n\t}()\n")
+	for _, s := range setup {
+		sb.WriteString("\t" + s + "\n")
+	}
+	rs := fn.Signature.Results()
+	var lhs []string
+	for i := 0; i < rs.Len(); i++ {
+		lhs = append(lhs, fmt.Sprintf("r%d", i))
+	}
+	call := fn.Name() + "(" + strings.Join(goArgs, ", ") + ")"
+	if recvExpr != "" {
+		call = "recv." + fn.Name() + "(" + strings.Join(goArgs, ", ") + ")"
+	}
+	if len(lhs) > 0 {
+		fmt.Fprintf(&sb, "\t%s := %s\n", strings.Join(lhs, ", "), call)
+	} else {
+		fmt.Fprintf(&sb, "\t%s\n", call)
+	}
+	for i := 0; i < rs.Len(); i++ {
+		t := rs.At(i).Type()
+		switch {
+		case isInteger(t), isBool(t):
+			fmt.Fprintf(&sb, "\tout[\"r%d\"] = fmt.Sprint(r%d)\n", i, i)
+		case types.TypeString(t, nil) == "error":
+			fmt.Fprintf(&sb, "\tout[\"r%d\"] = fmt.Sprint(r%d == nil)\n\tif r%d != nil {\n\t\tout[\"r%d_msg\"] = r%d.Error()\n\t}\n", i, i, i, i, i)
+		default:
+			fmt.Fprintf(&sb, "\t_ = r%d\n", i)
+		}
+	}
+	sb.WriteString("}\n")
+	rr.TestSrc = sb.String()
+	out, obs := runOverlayTest(filepath.Dir(w.Prog.Fset.Position(fn.Pos()).Filename), "zz_verif_replay_test.go", rr.TestSrc, "TestZZVerifReplay", "VERIFREPLAY:")
+	rr.Output = out
+	if obs == nil {
+		rr.Reason = "the replay test did not run to completion (build error, fatal error or timeout)"
+		if strings.Contains(out, "stack overflow") || strings.Contains(out, "goroutine stack exceeds") {
+			rr.Confirmed = true
+			rr.Reason = "the real code overflows the stack on the model input (fatal, unrecoverable)"
+		}
+		return
+	}
+	if p, ok := obs["panic"]; ok {
+		rr.Confirmed = true
+		rr.Reason = fmt.Sprintf("the real code panics on the model input: %v", p)
+		return
+	}
+	if safetyKind(o.Kind) {
+		rr.Reason = "the real code did not panic on the model input"
+		return
+	}
+	if ri.heapDep {
+		rr.Reason = "postconditions depend on the post-state heap; outputs alone do not decide them"
+		return
+	}
+	if len(ri.ensures) == 0 {
+		rr.Reason = "the function has no exported postcondition to evaluate on the real outputs"
+		return
+	}
+	// pin outputs and evaluate the exported postconditions
+	for i := 0; i < rs.Len(); i++ {
+		t := rs.At(i).Type()
+		ov, ok := obs[fmt.Sprintf("r%d", i)].(string)
+		if !ok {
+			rr.Reason = fmt.Sprintf("result %d of type %s cannot be observed", i, t)
+			return
+		}
+		switch {
+		case isBool(t):
+			pins = append(pins, fmt.Sprintf("(assert (= %s %s))", ri.resConsts[i], ov))
+		case isInteger(t):
+			n, _ := new(big.Int).SetString(ov, 10)
+			pins = append(pins, fmt.Sprintf("(assert (= %s %s))", ri.resConsts[i], g.numBig(n, t)))
+		default: // error
+			if ov == "true" {
+				pins = append(pins, fmt.Sprintf("(assert (= %s 0))", ri.resConsts[i]))
+			} else {
+				pins = append(pins, fmt.Sprintf("(assert (not (= %s 0)))", ri.resConsts[i]))
+			}
+		}
+	}
+	var q strings.Builder
+	q.WriteString(g.prelude())
+	for _, d := range g.defs[:ri.entryCtx] {
+		q.WriteString(d + "\n")
+	}
+	for _, d := range ri.extraDefs {
+		q.WriteString(d + "\n")
+	}
+	for _, p := range pins {
+		q.WriteString(p + "\n")
+	}
+	// (1) the pinned context must be consistent; (2) the postconditions must be false in EVERY model
+	// of it (pins AND ensures unsat) -- state that is not pinned cannot fake a confirmation.
+	base := q.String()
+	qf1 := filepath.Join(dir, fileSafe(o.Name)+".replay-consistent.smt2")
+	os.WriteFile(qf1, []byte(base+"(check-sat)\n"), 0644)
+	qf2 := filepath.Join(dir, fileSafe(o.Name)+".replay-eval.smt2")
+	os.WriteFile(qf2, []byte(base+fmt.Sprintf("(assert (and %s true))\n(check-sat)\n", strings.Join(ri.ensures, " "))), 0644)
+	st1, _, _, _ := raceSolvers(qf1, timeout)
+	st2, _, _, _ := raceSolvers(qf2, timeout)
+	if st1 == "sat" && st2 == "unsat" {
+		rr.Confirmed = true
+		rr.Reason = "an exported postcondition of the function is false on (model inputs, outputs of the real code)"
+	} else {
+		rr.Reason = fmt.Sprintf("postconditions evaluated on the real outputs: consistent=%s, postconditions-can-hold=%s (violation not reproduced or not determined by the replayed inputs)", st1, st2)
+	}
+	return
+}
+
+func hasReplayRecv(c *Contract) bool {
+	if c == nil {
+		return false
+	}
+	for _, l := range c.Replay {
+		if strings.HasPrefix(l, "recv ") {
+			return true
+		}
+	}
+	return false
+}
+
+// run an in-package test injected through an overlay; returns combined output and the JSON object printed after marker
+var replayOverlay map[string][]byte // extra overlay (selftest mutants): the replay then runs the mutated code
+
+func runOverlayTest(pkgDir, fileName, src, testName, marker string) (string, map[string]interface{}) {
+	tmp, err := os.MkdirTemp("", "govc-replay")
+	if err != nil {
+		return err.Error(), nil
+	}
+	defer os.RemoveAll(tmp)
+	tf := filepath.Join(tmp, fileName)
+	os.WriteFile(tf, []byte(src), 0644)
+	ov := map[string]map[string]string{"Replace": {filepath.Join(pkgDir, fileName): tf}}
+	k := 0
+	for path, content := range replayOverlay {
+		k++
+		mf := filepath.Join(tmp, fmt.Sprintf("mutant%d.go", k))
+		os.WriteFile(mf, content, 0644)
+		ov["Replace"][path] = mf
+	}
+	ob, _ := json.Marshal(ov)
+	of := filepath.Join(tmp, "overlay.json")
+	os.WriteFile(of, ob, 0644)
+	cmd := exec.Command("sh", "-c", fmt.Sprintf("ulimit -v 8000000; exec go test -tags verif -overlay %s -vet=off -count=1 -v -timeout 60s -run '^%s$' .", of, testName))
+	cmd.Dir = pkgDir
+	cmd.Env = append(goEnv(), "CGO_LDFLAGS=-Wl,--unresolved-symbols=ignore-all", "CGO_LDFLAGS_ALLOW=.*")
+	out, _ := cmd.CombinedOutput()
+	for _, l := range strings.Split(string(out), "\n") {
+		if i := strings.Index(l, marker); i >= 0 {
+			dec := json.NewDecoder(strings.NewReader(l[i+len(marker):]))
+			vals := map[string]interface{}{}
+			if err := dec.Decode(&vals); err == nil {
+				return string(out), vals
+			}
+		}
+	}
+	return string(out), nil
 }
 
 func cmdReplay(args []string) int {
-	fmt.Println("replay: see the JSON file; re-run `govc check <id>` to regenerate")
-	return 0
-}
-
-func cmdSelftest(args []string) int {
-	fmt.Println("selftest: not implemented yet")
+	if len(args) < 1 {
+		fmt.Println("usage: govc replay <replay.json>")
+		return 2
+	}
+	b, err := os.ReadFile(args[0])
+	if err != nil {
+		fmt.Println(err)
+		return 2
+	}
+	var rec map[string]interface{}
+	json.Unmarshal(b, &rec)
+	fmt.Printf("obligation: %v\nstatus: %v\nmodel: %v\nconfirmed on real code: %v\nnote: %v\n", rec["obligation"], rec["status"], rec["model"], rec["replay_confirmed"], rec["replay_note"])
+	if tf, ok := rec["replay_test"].(string); ok {
+		fmt.Printf("replay test source: %s\n", tf)
+	}
+	if c, ok := rec["replay_confirmed"].(bool); ok && c {
+		return 1
+	}
 	return 0
 }
